@@ -373,6 +373,10 @@ def _explanation(prop, tier, root, claimed, nfun, total, discharged, nfailed, nu
 
 
 def _claimed_level(prop):
+    p2 = os.path.join(VERIF, "levels.d", "%s.json" % prop)
+    if os.path.exists(p2):
+        with open(p2) as f:
+            return json.load(f)
     p = os.path.join(VERIF, "levels.json")
     if os.path.exists(p):
         with open(p) as f:
